@@ -1,8 +1,207 @@
-import DmrVerif.Model.Tms
-import DmrVerif.Model.Ars
+import DmrVerif.Lemmas.Tms
+import DmrVerif.Lemmas.Ars
+
+/-!
+# C16 — Motorola TMS and ARS messages keep length framing and fields over a round trip
+
+Property theorems only.  The models are `Model/Tms.lean` / `Model/Ars.lean` (line-by-line models of
+`text_messaging_service.py` / `automatic_registration_service.py`, tied to the code by the
+correspondence run); the enumeration values and `Enum(v)` lookups are the ones `tools/extract_tms.py`
+read from `/repo` on this run (`Gen/Tms.lean`, `Gen/Ars.lean`).  The range predicates `wf`, the normal
+forms `norm` and all lemmas are in `Lemmas/Tms.lean`, `Lemmas/Ars.lean`.
+
+For both protocols:
+* `…_len_prefix`   the leading 16-bit length equals the number of octets that follow — for *every*
+                   message that serialises at all, not only the ones in range;
+* `…_serialises`   every message in the property's range serialises (no exception);
+* `…_dec_enc`      `from_bytes (as_bytes p) = ok (norm p)`;
+* `…_norm_fields`  what `norm` can change, field by field (everything else is preserved);
+* `…_reencode`     `as_bytes (norm p) = as_bytes p`, and `…_enc_dec_enc`: `as_bytes ∘ from_bytes ∘ as_bytes
+                   = as_bytes`.
+Text, addresses and identifiers are opaque octet strings; Python's UTF-8 / UTF-16-LE codecs are
+trusted (identifiers are assumed to be what `str.encode("utf-8")` yields: well-formed UTF-8).
+-/
 
 namespace Dmr.C16
+open Dmr
 
-theorem placeholder : True := trivial
+/-! ## TMS (text messaging service) -/
+
+/-- the model's constructors cover the enumerations of this run's source tree -/
+theorem tms_tables : Gen.Tms.pduTypeCount = 3 ∧ Gen.Tms.encodingCount = 2 :=
+  ⟨Tms.ptype_count, Tms.enc_count⟩
+
+/-- the leading length is the number of octets that follow (any message that serialises) -/
+theorem tms_len_prefix (p : Tms.Msg) (bs : Bytes) (h : Tms.asBytes p = .ok bs) :
+    2 ≤ bs.length ∧ Tms.be (bs.take 2) = bs.length - 2 := by
+  obtain ⟨more, b, hb, -, -, -, -, rfl⟩ := Tms.asBytes_shape p bs h
+  refine ⟨by simp, ?_⟩
+  simp [Tms.be]; omega
+
+/-- every message in range serialises -/
+theorem tms_serialises (p : Tms.Msg) (h : Tms.wf p = true) : ∃ bs, Tms.asBytes p = .ok bs :=
+  Tms.asBytes_total p h
+
+/-- parsing the serialisation gives the fields back (normal form `Tms.norm`) -/
+theorem tms_dec_enc (p : Tms.Msg) (h : Tms.wf p = true) (bs : Bytes) (hb : Tms.asBytes p = .ok bs) :
+    Tms.fromBytes bs = .ok (Tms.norm p) :=
+  Tms.dec_enc p h bs hb
+
+/-- what the normal form preserves: address, acknowledged flag, PDU type; the capability of an
+availability message; the sequence number of acknowledgements and text messages; the text; the
+encoding up to `UNDEFINED ≡ None` (`hasEnc` is "encoding is UCS2_LE").  `has_more_headers` and the
+reserved bit are the values the encoder writes. -/
+theorem tms_norm_fields (p : Tms.Msg) :
+    (Tms.norm p).address = p.address ∧ (Tms.norm p).header.ack = p.header.ack ∧
+    (Tms.norm p).header.ptype = p.header.ptype ∧
+    (Tms.norm p).header.reserved = (p.header.reserved || p.header.ptype == .text) ∧
+    (p.header.ptype = .availability →
+      (Tms.norm p).capability = p.capability ∧ (Tms.norm p).header.more = p.capability.isSome) ∧
+    (p.header.ptype = .ack →
+      (Tms.norm p).seq = p.seq ∧ (Tms.norm p).header.more = p.seq.isSome ∧
+      Tms.hasEnc (Tms.norm p).encoding = Tms.hasEnc p.encoding) ∧
+    (p.header.ptype = .text →
+      (Tms.norm p).seq = p.seq ∧ (Tms.norm p).message = p.message ∧ (Tms.norm p).header.more = true ∧
+      Tms.hasEnc (Tms.norm p).encoding = Tms.hasEnc p.encoding) := by
+  obtain ⟨⟨hm, ha, hr, t⟩, addr, cap, seq, enc, msg⟩ := p
+  cases t <;> simp [Tms.norm, Tms.hasEnc_normEnc]
+
+theorem tms_norm_idem (p : Tms.Msg) : Tms.norm (Tms.norm p) = Tms.norm p := Tms.norm_idem p
+
+theorem tms_norm_wf (p : Tms.Msg) (h : Tms.wf p = true) : Tms.wf (Tms.norm p) = true := Tms.wf_norm p h
+
+/-- the normal form serialises to the same octets -/
+theorem tms_reencode (p : Tms.Msg) (h : Tms.wf p = true) : Tms.asBytes (Tms.norm p) = Tms.asBytes p :=
+  Tms.reencode p h
+
+/-- serialise, parse, serialise again: the same octets -/
+theorem tms_enc_dec_enc (p : Tms.Msg) (h : Tms.wf p = true) (bs : Bytes) (hb : Tms.asBytes p = .ok bs) :
+    ∃ q, Tms.fromBytes bs = .ok q ∧ Tms.asBytes q = .ok bs :=
+  ⟨Tms.norm p, Tms.dec_enc p h bs hb, by rw [Tms.reencode p h, hb]⟩
+
+/-- the optional header: sequence numbers 0..31 without encoding take one octet, everything else two
+(5 low bits + 2 high bits); the decoder inverts the split whatever follows -/
+theorem tms_sn_roundtrip (sn : Nat) (enc : Option Tms.Encoding) (h : sn ≤ 127) (rest : Bytes) :
+    ∃ bs, Tms.encodeSn (some sn) enc = .ok bs ∧
+      bs.length = (if sn > 31 ∨ Tms.hasEnc enc = true then 2 else 1) ∧
+      Tms.decodeSn (bs ++ rest) 0 = .ok (bs.length, sn, Tms.normEnc enc) := by
+  exact Tms.sn_roundtrip sn enc h rest
+
+/-- the hypotheses are satisfiable by non-trivial values: the captured text message of the test-suite
+("ahoj", sequence number 85, address 01) is in range and serialises to the captured octets; an
+acknowledgement of sequence number 0 keeps its optional header (repaired defect 25ab0e1) -/
+def exText : Tms.Msg := ⟨⟨false, true, false, .text⟩, [1], none, some 85, some .ucs2le,
+  some [0x61, 0, 0x68, 0, 0x6F, 0, 0x6A, 0]⟩
+
+example : Tms.wf exText = true ∧
+    Tms.asBytes exText = .ok [0x00, 0x0D, 0xE0, 0x01, 0x01, 0x95, 0x44, 0x61, 0, 0x68, 0, 0x6F, 0, 0x6A, 0] :=
+  ⟨by decide, by rfl⟩
+
+def exAck0 : Tms.Msg := ⟨⟨false, false, false, .ack⟩, [], none, some 0, none, none⟩
+
+example : Tms.wf exAck0 = true ∧ Tms.asBytes exAck0 = .ok [0, 3, 0x9F, 0, 0] ∧
+    Tms.fromBytes [0, 3, 0x9F, 0, 0] = .ok (Tms.norm exAck0) ∧ (Tms.norm exAck0).seq = some 0 :=
+  ⟨by decide, by rfl, by rfl, by rfl⟩
+
+/-! ## ARS (automatic registration service) -/
+
+theorem ars_tables : Gen.Ars.pduTypeCount = 7 ∧ Gen.Ars.eventCount = 3 ∧ Gen.Ars.encodingCount = 1 ∧
+    Gen.Ars.failureCount = 4 ∧ Gen.Ars.csbkEnd = [0x10, 0x80] :=
+  ⟨Ars.ptype_count, Ars.event_count, Ars.enc_count, Ars.failure_count, Ars.csbk_val⟩
+
+/-- the leading length is the number of octets that follow (any message that serialises, with or
+without the CSBK trailer) -/
+theorem ars_len_prefix (p : Ars.Msg) (bs : Bytes) (h : Ars.asBytes p = .ok bs) :
+    2 ≤ bs.length ∧ Tms.be (bs.take 2) = bs.length - 2 := by
+  obtain ⟨hb, b, -, -, -, rfl⟩ := Ars.asBytes_shape p bs h
+  refine ⟨by simp, ?_⟩
+  simp [Tms.be]; omega
+
+theorem ars_serialises (p : Ars.Msg) (h : Ars.wf p = true) : ∃ bs, Ars.asBytes p = .ok bs :=
+  Ars.asBytes_total p h
+
+/-- parsing the serialisation gives the fields back (normal form `Ars.norm`); in particular the CSBK
+trailer is detected exactly when it was written -/
+theorem ars_dec_enc (p : Ars.Msg) (h : Ars.wf p = true) (bs : Bytes) (hb : Ars.asBytes p = .ok bs) :
+    Ars.fromBytes bs = .ok (Ars.norm p) :=
+  Ars.dec_enc p h bs hb
+
+/-- what the normal form preserves: the whole first header (four flags and type) and the CSBK flag;
+in registration requests the three identifiers up to `None ≡ ""` and the registration header when
+`has_more_headers` is set; in acknowledgements with `has_more_headers` the failure reason (failure =
+acknowledged flag set) respectively the refresh time (success) -/
+theorem ars_norm_fields (p : Ars.Msg) (h : Ars.wf p = true) :
+    (Ars.norm p).header = p.header ∧ (Ars.norm p).csbk = p.csbk ∧
+    (p.header.ptype.isReg = true →
+      ((Ars.norm p).device.getD [] = p.device.getD [] ∧ (Ars.norm p).user.getD [] = p.user.getD [] ∧
+       (Ars.norm p).password.getD [] = p.password.getD []) ∧
+      (p.header.more = true → (Ars.norm p).rrh = p.rrh)) ∧
+    (p.header.ptype = .response → p.header.more = true →
+      ∃ r r', p.rsh = some r ∧ (Ars.norm p).rsh = some r' ∧ r'.ctx = some p.header.ack ∧
+        (p.header.ack = true → r'.failure = r.failure) ∧
+        (p.header.ack = false → r'.refresh = r.refresh)) := by
+  obtain ⟨⟨hm, ha, hp, hc, t⟩, rrh, rsh, dev, user, pw, csbk⟩ := p
+  cases t <;> simp [Ars.norm, Ars.PduType.isReg, Ars.normId]
+  · intro hm'; simp [hm']
+  · intro hm'; simp [hm']
+  · intro hm'
+    subst hm'
+    cases rsh with
+    | none => simp [Ars.wf] at h
+    | some r =>
+      have hr : Ars.okRsh ha r = true := by simpa [Ars.wf] using h
+      obtain ⟨f, rt, c⟩ := r
+      simp only [Ars.okRsh, Bool.and_eq_true, beq_iff_eq] at hr
+      obtain ⟨hc', hr⟩ := hr
+      cases ha with
+      | true =>
+        cases f with
+        | none => simp at hr
+        | some f => simp [Ars.normRsh]
+      | false =>
+        cases rt with
+        | none => simp at hr
+        | some rt => simp [Ars.normRsh]
+
+theorem ars_norm_idem (p : Ars.Msg) : Ars.norm (Ars.norm p) = Ars.norm p := Ars.norm_idem p
+
+theorem ars_norm_wf (p : Ars.Msg) (h : Ars.wf p = true) : Ars.wf (Ars.norm p) = true := Ars.wf_norm p h
+
+/-- the normal form serialises to the same octets -/
+theorem ars_reencode (p : Ars.Msg) (h : Ars.wf p = true) : Ars.asBytes (Ars.norm p) = Ars.asBytes p :=
+  Ars.reencode p h
+
+/-- serialise, parse, serialise again: the same octets -/
+theorem ars_enc_dec_enc (p : Ars.Msg) (h : Ars.wf p = true) (bs : Bytes) (hb : Ars.asBytes p = .ok bs) :
+    ∃ q, Ars.fromBytes bs = .ok q ∧ Ars.asBytes q = .ok bs :=
+  ⟨Ars.norm p, Ars.dec_enc p h bs hb, by rw [Ars.reencode p h, hb]⟩
+
+/-- why the trailer test cannot misfire on identifiers: well-formed UTF-8 never ends in `10 80` -/
+theorem ars_utf8_no_trailer (pre : Bytes) : Ars.validUtf8 (pre ++ [0x10, 0x80]) = false := by
+  cases h : Ars.validUtf8 (pre ++ [0x10, 0x80])
+  · rfl
+  · exact (Ars.valid_not_csbk pre h).elim
+
+/-- the hypotheses are satisfiable by non-trivial values: the captured device registration and the
+captured CSBK acknowledgement of the test-suite, and a success acknowledgement with refresh time 127
+and trailer -/
+def exDevReg : Ars.Msg := ⟨⟨true, true, true, true, .devReg⟩, some ⟨.initial, .utf8⟩, none,
+  some [0x31, 0x31], some [], none, false⟩
+
+example : Ars.wf exDevReg = true ∧
+    Ars.asBytes exDevReg = .ok [0x00, 0x07, 0xF0, 0x20, 0x02, 0x31, 0x31, 0x00, 0x00] :=
+  ⟨by decide, by rfl⟩
+
+def exCsbk : Ars.Msg := ⟨⟨false, false, true, true, .response⟩, none, none, none, none, none, true⟩
+
+example : Ars.wf exCsbk = true ∧ Ars.asBytes exCsbk = .ok [0x00, 0x03, 0x3F, 0x10, 0x80] :=
+  ⟨by decide, by rfl⟩
+
+def exRefresh : Ars.Msg := ⟨⟨true, false, true, true, .response⟩, none,
+  some ⟨none, some 127, some false⟩, none, none, none, true⟩
+
+example : Ars.wf exRefresh = true ∧ Ars.asBytes exRefresh = .ok [0x00, 0x04, 0xBF, 0x7F, 0x10, 0x80] ∧
+    Ars.fromBytes [0x00, 0x04, 0xBF, 0x7F, 0x10, 0x80] = .ok (Ars.norm exRefresh) :=
+  ⟨by decide, by rfl, by rfl⟩
 
 end Dmr.C16
